@@ -438,6 +438,10 @@ type vC18Run struct {
 	snap         int64
 	pub          []vC18Ev
 	seenPubFails int64
+	// an observation that could not be taken (the stream or the log store was not
+	// readable in time): the line must not be recorded with a stale projection -
+	// the behaviour is abandoned (inconclusive), never judged on it
+	obsErr string
 	// A second CLUSTER (one server "f", its own Raft log, its own namespace) on the same
 	// NATS deployment.  When the behaviour has one, "f" runs the NATS server and the
 	// cluster under test connects to it, so that restarts of "a" leave NATS alone.
@@ -749,6 +753,9 @@ func (r *vC18Run) readRaftLog(n *vC18Node) {
 	for i := uint64(len(r.rlog)) + 1; i <= commit; i++ {
 		l := new(raft.Log)
 		if err := rn.store.GetLog(i, l); err != nil {
+			if n.srv != nil && n.srv.IsRunning() && !n.srv.isShutdown() {
+				r.obsErr = "committed Raft log not readable: " + err.Error()
+			}
 			return
 		}
 		r.rlog = append(r.rlog, vC18OpEntry(l))
@@ -770,15 +777,17 @@ func (r *vC18Run) readPub(n *vC18Node) {
 	}
 	rd, err := p.log.NewReader(0, false)
 	if err != nil {
+		r.obsErr = "activity stream not readable: " + err.Error()
 		return
 	}
-	ctx, cancel := context.WithTimeout(context.Background(), 5*time.Second)
+	ctx, cancel := context.WithTimeout(context.Background(), 20*time.Second)
 	defer cancel()
 	headers := make([]byte, 28)
 	out := []vC18Ev{}
 	for {
 		m, off, _, _, err := rd.ReadMessage(ctx, headers)
 		if err != nil {
+			r.obsErr = "activity stream not readable up to its high watermark: " + err.Error()
 			return
 		}
 		ev := new(client.ActivityStreamEvent)
@@ -1115,6 +1124,11 @@ func (r *vC18Run) step(step map[string]interface{}) (ev vC18Event) {
 		vC18Fail("unknown step %s", a)
 	}
 	ev.St = r.state(focus)
+	if r.obsErr != "" {
+		msg := r.obsErr
+		r.obsErr = ""
+		vC18Fail("observation failed: %s", msg)
+	}
 	return ev
 }
 
@@ -1149,8 +1163,9 @@ func (r *vC18Run) probe() (ev vC18Event, ok bool) {
 		}
 		time.Sleep(2 * time.Millisecond)
 	}
+	r.obsErr = ""
 	ev = vC18Event{T: r.bid, A: "Probe", Args: map[string]interface{}{"name": name}, St: r.state(n)}
-	return ev, true
+	return ev, r.obsErr == ""
 }
 
 func (r *vC18Run) closeAll() {
@@ -1207,14 +1222,26 @@ func TestVerifC18(t *testing.T) {
 			defer func() {
 				if p := recover(); p != nil {
 					if stl, ok := p.(vC18Stalled); ok {
+						r.obsErr = ""
 						ev := vC18Event{T: b.ID, A: "Stalled", Args: map[string]interface{}{"n": stl.node.id}, St: r.state(stl.node)}
+						if r.obsErr != "" {
+							timeouts++
+							tw.Emit(map[string]interface{}{"t": b.ID, "a": "Abandoned", "why": "observation failed: " + r.obsErr})
+							return
+						}
 						tw.Emit(ev)
 						tw.Emit(map[string]interface{}{"t": b.ID, "a": "Completed"})
 						return
 					}
 					if q, ok := p.(vC18Quiet); ok {
+						r.obsErr = ""
 						ev := vC18Event{T: b.ID, A: "Quiet", Args: map[string]interface{}{"n": q.node.id,
 							"ms": int64(vC18QuietFor / time.Millisecond)}, St: r.state(q.node)}
+						if r.obsErr != "" {
+							timeouts++
+							tw.Emit(map[string]interface{}{"t": b.ID, "a": "Abandoned", "why": "observation failed: " + r.obsErr})
+							return
+						}
 						tw.Emit(ev)
 						// The dispatcher was seen blocked in its own code, waiting for the next
 						// commit, for the whole window: the step the behaviour expected will not
